@@ -1,6 +1,7 @@
 import Pyunicorn.Model.Proto
 import Pyunicorn.Model.Net
 import Pyunicorn.Model.NetBetw
+import Pyunicorn.Model.NetBetwDef
 /-! Line-protocol driver for C03: one request per line on stdin, one answer per line. -/
 open Pyunicorn Pyunicorn.Proto Pyunicorn.Net
 
@@ -100,6 +101,22 @@ def answer (toks : List String) : String :=
   | ["betw", m, w, src, tg] =>
     let M := boolMat m; let n := M.length; let a := adjOf M
     showRats (NetBetw.nsiBetweenness n a (ratFn (rats w)) (bools src) (nats tg))
+  | ["betwdef", m, w, src, tg] =>
+    let M := boolMat m; let n := M.length; let a := adjOf M
+    let D := (List.range n).map fun i => bfs n a i
+    let d : NetBetw.DistFn := fun i j => (D.getD i []).getD j none
+    showRats (NetBetw.nsiBetweennessDef n a (ratFn (rats w)) d (bools src) (nats tg))
+  | ["sigma", m, w, j] =>
+    -- weighted numbers of shortest paths from `j`: by enumeration of all paths, and by recursion
+    let M := boolMat m; let n := M.length; let a := adjOf M
+    let D := (List.range n).map fun i => bfs n a i
+    let d : NetBetw.DistFn := fun i j => (D.getD i []).getD j none
+    let wf := ratFn (rats w); let jj := j.toNat!
+    join [vec n fun l => showRat (NetBetw.sigmaPaths n a wf d jj l),
+          vec n fun l => showRat (NetBetw.sigma n a wf d jj l)] ";"
+  | ["wlc", w] =>
+    let W := ratMat w; let n := W.length; let f := ratMatFn W
+    vec n fun i => showOptRat (weightedLocalClustering n f i)
   | _ => "bad-request"
 where
   /-- adjacency lists: rows separated by `;`, an empty row is `-` -/
